@@ -217,6 +217,18 @@ def allocation_sizes(ctx, prog, rule, kind="reader"):
                 if eb is not None and eb[1] <= CAP:
                     v, ok_iv = eb, True
             ok_mem = memlen(prog, tree)
+            if not ok_iv and not ok_mem:
+                sh_ = strip(tree)
+                while sh_[0] == "cast":
+                    sh_ = strip(sh_[2])
+                if sh_[0] == "param" and not f.public:
+                    # the size is a parameter of a private function: bounded at every call site, or the minimum of the
+                    # queue lengths that the fill-loop rule accepts as a bound
+                    okp_, whyp_ = _param_bounded(prog, iv, f, sh_[1])
+                    if not okp_:
+                        okp_, whyp_ = _fill_bound_ok(prog, iv, f, sh_)
+                    if okp_:
+                        ok_mem = True
             why = ("size in %s (bounded by constants / guards / field invariants)" % (v,)) if ok_iv else ("size is a length of in-memory data: %s" % tree_str(strip_deep(tree))[:100] if ok_mem else
                    "size %s = %s is neither bounded by a constant cap nor a length of data already in memory" % (v, tree_str(strip_deep(tree))[:160]))
             ctx.ob(rule, "alloc/%s/%s" % (short(p), short(c)), ok_iv or ok_mem, "%s(%s): %s" % (short(c), tree_str(strip_deep(tree))[:80], why), where=f.file_line(bi))
